@@ -994,12 +994,20 @@ func init() {
 			gen: genBracketHTML},
 		{id: "ld-code-in-container-block", minimal: "-     [](a)", clause: "only-destinations-change",
 			// goldmark: the span lies in an indented or fenced code block inside a list item or
-			// block quote. Scanner: indentation and fences are measured from the start of the line.
-			effects: []string{"rewrote:code-block", "rewrote:link-syntax"},
+			// block quote, or in a code block after one: a fence opened inside a container ends with
+			// the container, and the next fence line opens a new block. Scanner: indentation and
+			// fences are measured from the start of the line, and a fence seen inside a container
+			// stays open after it (without containers the scanner's fences are CommonMark's:
+			// isFenceStart_iff_openingFence, isFenceClose_iff_closingFence).
+			// A line of a block quote that alone is an indented code block in the quote may, in the
+			// document, continue the quote's paragraph (its bytes are then text or part of a code
+			// span that began on an earlier line); the scanner reads a `>` line as inline text either way.
+			effects: []string{"rewrote:code-block", "rewrote:link-syntax", "rewrote:code-span", "rewrote:text"},
 			predict: func(in *docInfo) []span {
 				return filterCands(in, func(c cand) bool {
 					return in.plain(c) && rewritable(c.raw) &&
-						(c.at.role == "code-block" && c.at.container || !c.def && !c.whole && c.at.role == "link-syntax" && defInContainer(c.line))
+						(c.at.role == "code-block" && (c.at.container || containerBefore(in.doc, c.s)) || !c.def && !c.whole && c.at.role == "link-syntax" && defInContainer(c.line) ||
+							!c.whole && (c.at.role == "code-span" || c.at.role == "text") && quotedCodeAlone(c))
 				})
 			},
 			gen: genContainer},
@@ -1128,6 +1136,47 @@ func init() {
 			},
 			gen: genTagTitle},
 	}
+}
+
+// quotedCodeAlone: the candidate's line begins a block quote and, standing alone, holds the
+// candidate in a code block inside that quote
+func quotedCodeAlone(c cand) bool {
+	if !strings.HasPrefix(strings.TrimLeft(c.line, " "), ">") {
+		return false
+	}
+	pl := locate(c.line, c.s-c.ls, c.e-c.ls)
+	return pl.role == "code-block" && pl.container
+}
+
+// containerBefore: for goldmark the document has a list item or block quote, and a line that
+// begins before position p starts with a container marker
+func containerBefore(doc string, p int) bool {
+	v := parsed(doc)
+	if v == nil {
+		return false
+	}
+	found := false
+	gast.Walk(v.doc, func(n gast.Node, entering bool) (gast.WalkStatus, error) {
+		if k := n.Kind(); k == gast.KindListItem || k == gast.KindBlockquote {
+			found = true
+			return gast.WalkStop, nil
+		}
+		return gast.WalkContinue, nil
+	})
+	if !found {
+		return false
+	}
+	ls := 0
+	for _, line := range strings.Split(doc, "\n") {
+		if ls >= p {
+			break
+		}
+		if reContainerMarker.MatchString(line) {
+			return true
+		}
+		ls += len(line) + 1
+	}
+	return false
 }
 
 var reContainerMarker = regexp.MustCompile(`^ {0,3}(?:[-+*]|[0-9]{1,9}[.)]|>)[ \t]*`)
